@@ -80,6 +80,8 @@ def ref_tokens(toks):
     parts = []
     for t in toks:
         parts.append(t.text)
+        if getattr(t, 'glue', False):
+            continue
         parts.append('\n' if '//' in t.text else ' ')
     return tokens_of(''.join(parts))
 
